@@ -23,6 +23,10 @@ TECHNIQUE = 'static: structural induction leaves on MIR - leaf impls (declared i
 RULE_TEXT = "one obligation per (impl, method) for composites and per leaf impl; floors: 26 tuple impls x 4 methods, 6 leaves, >= 12 corpus derives"
 
 
+def _derive_source(ctx, report, config):
+    D.derive_source(ctx, report, "C06.DERIVESRC", ctx.facts(config, crate="shred_derive", kind="procmacro"), config)
+
+
 def run(ctx, report):
     for config in ctx.configs:
         facts = ctx.facts(config)
@@ -32,6 +36,9 @@ def run(ctx, report):
         report.floor("C06.LEAF", "leaf impls of SystemData", counts["leaf"], 6, config=config)
         report.guard("C06.STATIC", D.static_accessor, ctx, report, "C06.STATIC", facts, config)
         report.guard("C06.RELEASE", R.release, ctx, report, "C06.RELEASE", facts, config)
+        if config != "nopar":
+            # the macro's own source (compiled in every configuration that enables the derive feature)
+            report.guard("C06.DERIVESRC", _derive_source, ctx, report, config)
     P.check(ctx, report, "C06.RELEASE", ["forget_guard", "manually_drop_guard", "leak_guard"])
     # derive corpus (probe crate; default features)
     try:
